@@ -22,6 +22,8 @@ pub enum Call {
     RawName(Vec<u8>, Option<Vec<u8>>),
     /// offset translation asked for an offset that is no record boundary (panics by design); later calls must not care
     UncompressAt(Vec<u8>, usize),
+    /// parse, then decompress in place through the object (`recompute()`)
+    Recompute(Vec<u8>),
 }
 
 impl Call {
@@ -34,6 +36,7 @@ impl Call {
             Call::Synth(_) => "synth",
             Call::RawName(..) => "raw_name",
             Call::UncompressAt(..) => "uncompress_at",
+            Call::Recompute(_) => "recompute",
         }
     }
     /// Evaluate; the result is reduced to bytes (verdict + output + view).
@@ -78,6 +81,18 @@ impl Call {
                 Err(_) => b"E".to_vec(),
                 Ok(w) => [b"O".to_vec(), w].concat(),
             },
+            Call::Recompute(x) => match DNSSector::new(x.clone()).unwrap().parse() {
+                Err(_) => b"P".to_vec(),
+                Ok(mut pp) => match pp.recompute() {
+                    Err(_) => b"E".to_vec(),
+                    Ok(()) => {
+                        let mut o = b"O".to_vec();
+                        o.extend_from_slice(pp.packet());
+                        o.extend_from_slice(format!("|{:?}{:?}{:?}{:?}{:?}|{}", pp.offset_question, pp.offset_answers, pp.offset_nameservers, pp.offset_additional, pp.offset_edns, pp.maybe_compressed).as_bytes());
+                        o
+                    }
+                },
+            },
             Call::UncompressAt(x, off) => match std::panic::catch_unwind(|| Compress::uncompress_with_previous_offset(x, *off)) {
                 Err(_) => b"PANIC".to_vec(),
                 Ok(Err(_)) => b"E".to_vec(),
@@ -94,6 +109,7 @@ impl Call {
             Call::Synth(t) => format!("synth:{}", hex(t.as_bytes())),
             Call::RawName(n, z) => format!("rawname:{}:{}", hex(n), z.as_ref().map(|z| format!("z{}", hex(z))).unwrap_or_else(|| "none".into())),
             Call::UncompressAt(x, o) => format!("uncompressat:{}:{}", hex(x), o),
+            Call::Recompute(x) => format!("recompute:{}", hex(x)),
         }
     }
     pub fn decode(s: &str) -> Option<Call> {
@@ -106,6 +122,7 @@ impl Call {
             "synth" => Call::Synth(String::from_utf8(unhex(p.get(1)?)).ok()?),
             "rawname" => Call::RawName(unhex(p.get(1)?), p.get(2).and_then(|z| z.strip_prefix('z')).map(unhex)),
             "uncompressat" => Call::UncompressAt(unhex(p.get(1)?), p.get(2)?.parse().ok()?),
+            "recompute" => Call::Recompute(unhex(p.get(1)?)),
             _ => return None,
         })
     }
@@ -175,6 +192,54 @@ pub fn lookalike_pairs(rng: &mut Rng) -> Vec<(Call, Call)> {
             if b != v.bytes {
                 out.push((Call::Parse(v.bytes.clone()), Call::Parse(b)));
             }
+        }
+    }
+    // rename: two packets that differ only in the letter case of one name, same (target, source, suffix)
+    for _ in 0..3 {
+        let cfg = Cfg { long_names: false, mixed_case: false, ..Default::default() };
+        let zone = Name(vec![gen_label(rng, &cfg), b"example".to_vec()]);
+        let host = Name(vec![gen_label(rng, &cfg), gen_label(rng, &cfg)]).concat(&zone);
+        let mut flipped = host.clone();
+        for l in flipped.0.iter_mut().take(2) {
+            for c in l.iter_mut() {
+                if c.is_ascii_alphabetic() && rng.chance(2, 3) {
+                    *c ^= 0x20;
+                }
+            }
+        }
+        if flipped == host {
+            continue;
+        }
+        let mk = |n: &Name| {
+            let mut m = Msg { id: 7, flags: 0x8180, ..Default::default() };
+            m.question.push(Question { name: Name::from_labels(&[b"q"]), qtype: 1, qclass: 1 });
+            m.sec[0].push(Record { name: n.clone(), rtype: T_A, class: 1, ttl: 5, rdata: RData::A([10, 0, 0, 1]) });
+            m.sec[1].push(Record { name: zone.clone(), rtype: T_NS, class: 1, ttl: 5, rdata: RData::Name(n.clone()) });
+            m.encode_literal()
+        };
+        let tgt = Name(vec![b"renamed".to_vec(), b"net".to_vec()]).to_wire();
+        out.push((Call::Rename(mk(&host), tgt.clone(), zone.to_wire(), true), Call::Rename(mk(&flipped), tgt, zone.to_wire(), true)));
+    }
+    // recompute: a pointer-free packet exactly as long as a compressed one (whatever a decompression leaves behind
+    // about "the last output" must not be mistaken for a statement about the next packet)
+    for _ in 0..3 {
+        let cfg = Cfg { compress_eighths: 8, max_records: 6, alphabet: 3, allow_header_targets: false, ..Default::default() };
+        let v = gen_valid(rng, &cfg);
+        if v.pointers == 0 || v.bytes.len() < 60 {
+            continue;
+        }
+        let mut m = Msg { id: 9, flags: 0x8180, ..Default::default() };
+        m.question.push(Question { name: Name::from_labels(&[b"q"]), qtype: 1, qclass: 1 });
+        let base = m.encode_literal().len();
+        // one TXT record "p. TXT <pad>": 3 + 10 + pad bytes
+        if v.bytes.len() < base + 14 {
+            continue;
+        }
+        let pad = v.bytes.len() - base - 13;
+        m.sec[0].push(Record { name: Name::from_labels(&[b"p"]), rtype: T_TXT, class: 1, ttl: 5, rdata: RData::Opaque(vec![b'x'; pad]) });
+        let lit = m.encode_literal();
+        if lit.len() == v.bytes.len() {
+            out.push((Call::Recompute(lit), Call::Recompute(v.bytes.clone())));
         }
     }
     out
@@ -378,8 +443,9 @@ pub fn run(ctx: &mut Ctx) {
                 };
                 ctx.evaluations += 6;
                 ctx.count("lookalike_pairs");
+                ctx.count(&format!("lookalike_kind:{}", b.kind()));
                 if ha != ra || hb != rb || hb2 != rb {
-                    ctx.violation("C17", "parse|result-depends-on-the-previous-input".into(), "parse of a packet gives a different result right after parsing a same-length look-alike".into(), b.encode().as_bytes());
+                    ctx.violation("C17", format!("{}|result-depends-on-the-previous-input", b.kind()), format!("{} gives a different result right after the same call on a look-alike input ({})", b.kind(), a.encode().chars().take(200).collect::<String>()), b.encode().as_bytes());
                 }
             }
         }
@@ -449,6 +515,25 @@ pub fn run(ctx: &mut Ctx) {
         }
         if let Some((i, r)) = differs {
             ctx.violation("C17", "check_compressed_name|result-depends-on-earlier-calls".into(), format!("call #{} on the same bytes and offset returns {:?}, the first call returned {:?}", i, r, first), &chain);
+        }
+    }
+    // (c') more than 65536 syntheses in a row on one thread (whatever feeds the transaction id must not run out)
+    for case in ctx.phase("many-syntheses", if ctx.tier == "tsan" { 1 } else { 4 }) {
+        ctx.begin_case(case);
+        let reps = 70_000u64;
+        let r = guarded(u64::MAX / 2, move || {
+            let mut distinct = std::collections::BTreeSet::new();
+            for i in 0..reps {
+                let pp = if case % 2 == 0 || i % 2 == 0 { ParsedPacket::empty() } else { r#gen::query(b"example.com", Type::A, Class::IN).unwrap() };
+                distinct.insert(pp.tid());
+            }
+            distinct.len()
+        });
+        ctx.evaluations += reps;
+        ctx.count_n("syntheses_in_a_row", reps);
+        match r {
+            Err(p) => ctx.violation("C17", format!("synthesis|{}", p.class()), format!("within {} syntheses in a row on one thread: {}", reps, p.msg), &[]),
+            Ok(d) => ctx.maximum("distinct_ids_in_70000_syntheses", d as u64),
         }
     }
     // (c) ParsedPacket::empty(): only the transaction id may vary
